@@ -198,3 +198,378 @@ def parse_grid(op):
     verts = [tuple(unhx(w[4 + 3 * i + c]) for c in range(3)) for i in range(nn)]
     L = [unhx(x) for x in w[4 + 3 * nn: 4 + 3 * nn + 24]]
     return twod, verts, L
+
+
+# ------------------------------------------------------------------ the property, directly
+def Lat(L, p):
+    return [L[c] + L[6 + c] * p[0] + L[12 + c] * p[1] + L[18 + c] * p[2] for c in range(6)]
+
+
+def _mat(m):
+    return [[m[0], m[1], m[2]], [m[1], m[3], m[4]], [m[2], m[4], m[5]]]
+
+
+def _mul(a, b):
+    return [[sum(a[i][k] * b[k][j] for k in range(3)) for j in range(3)] for i in range(3)]
+
+
+def expm6(l):
+    """exp of a symmetric 3x3 given as (m11 m12 m13 m22 m23 m33): scaling and squaring with a Taylor series"""
+    a = _mat(l)
+    nrm = max(sum(abs(x) for x in row) for row in a)
+    k = max(0, int(math.ceil(math.log2(nrm))) + 3) if nrm > 0 else 0
+    s = [[x / (2.0 ** k) for x in row] for row in a]
+    r = [[1.0 if i == j else 0.0 for j in range(3)] for i in range(3)]
+    term = [row[:] for row in r]
+    for n in range(1, 24):
+        term = _mul(term, s)
+        term = [[x / n for x in row] for row in term]
+        r = [[r[i][j] + term[i][j] for j in range(3)] for i in range(3)]
+    for _ in range(k):
+        r = _mul(r, r)
+    return [r[0][0], r[0][1], r[0][2], r[1][1], r[1][2], r[2][2]]
+
+
+TOL_LOG = 2e-9     # absolute, on log-metric components of size O(1..10)
+TOL_M = 1e-7       # relative (Frobenius-like: against the largest entry)
+
+
+def metric_error(L, xyz, m, lg):
+    """None, or a message, when the stored pair (m, log m) is not (exp L(x), L(x))"""
+    want = Lat(L, xyz)
+    sc = max(1.0, max(abs(x) for x in want))
+    e = max(abs(a - b) for a, b in zip(lg, want))
+    if not e <= TOL_LOG * sc:
+        return 'stored log metric differs from L(x) by %.3e at x=(%.17g, %.17g, %.17g)' % (e, xyz[0], xyz[1], xyz[2])
+    wm = expm6(want)
+    scm = max(abs(x) for x in wm)
+    em = max(abs(a - b) for a, b in zip(m, wm))
+    if not em <= TOL_M * scm:
+        return 'stored metric differs from exp(L(x)) by %.3e relative at x=(%.17g, %.17g, %.17g)' % (em / scm, xyz[0], xyz[1], xyz[2])
+    return None
+
+
+class St:
+    """STATE := x y z cell part b0..b3 m0..m5 l0..l5"""
+    __slots__ = ('xyzw', 'xyz', 'cell', 'part', 'bary', 'm', 'lg', 'mw', 'lw')
+
+    def __init__(self, w):
+        self.xyzw = w[0:3]
+        self.xyz = [unhx(x) for x in w[0:3]]
+        self.cell = int(w[3])
+        self.part = int(w[4])
+        self.bary = [unhx(x) for x in w[5:9]]
+        self.mw = w[9:15]
+        self.lw = w[15:21]
+        self.m = [unhx(x) for x in self.mw]
+        self.lg = [unhx(x) for x in self.lw]
+
+
+def skip_events(w, i):
+    n = int(w[i])
+    i += 1
+    for _ in range(n):
+        i += {'P': 3, 'R': 8, 'T': 2}[w[i]]
+    return i
+
+
+def parse_I(w):
+    """-> kind, node, hasinterp, cont, pre, [(status, pre, post)], post"""
+    kind, node, hi, ct = w[1], int(w[2]), int(w[3]), int(w[4])
+    pre = St(w[5:26])
+    ncall = int(w[26])
+    i = 27
+    calls = []
+    for _ in range(ncall):
+        st = w[i]
+        a = St(w[i + 1:i + 22])
+        b = St(w[i + 22:i + 43])
+        i = skip_events(w, i + 43)
+        calls.append((st, a, b))
+    post = St(w[i:i + 21])
+    return kind, node, hi, ct, pre, calls, post
+
+
+def inside(bary, twod):
+    b = bary[:3] if twod else bary
+    return min(b) >= -1e-10
+
+
+def oracle(ops, impl):
+    """C05: after every improver call, split insertion and direct interpolation the vertex carries (exp L(x), L(x));
+    C13: an improver call that does not move the vertex leaves coordinates bit-identical and the metric unchanged
+    (and, serially, a located vertex located); without a continuously interpolated background nothing touches the metric"""
+    bad = []
+    it = iter(impl)
+    twod, L, mode = True, None, 0
+    tampered = set()
+    everything_tampered = False
+    for k, op in enumerate(ops):
+        w0 = op.split()
+        lines = []
+        for line in it:
+            if line.startswith('. '):
+                break
+            lines.append(line)
+        if w0[0] == 'grid' and lines and lines[0].startswith('BG'):
+            twod, verts, L = parse_grid(op)
+            mode = int(w0[1])
+            tampered = set()
+            everything_tampered = False
+            continue
+        if L is None:
+            continue
+        if w0[0] in ('setcell', 'setpart', 'move') and len(w0) > 1 and lines and not lines[0].startswith('bad-op'):
+            tampered.add(int(w0[1]))
+        if w0[0] == 'pass' and len(w0) > 1 and 'p' in w0[1] and tampered:
+            everything_tampered = True  # pack renumbers the vertices
+        for line in lines:
+            w = line.split()
+            if w[0] == 'I':
+                kind, node, hi, ct, pre, calls, post = parse_I(w)
+                moved = post.xyzw != pre.xyzw
+                clean = node not in tampered and not everything_tampered
+                if mode == 0 and clean:
+                    e = metric_error(L, post.xyz, post.m, post.lg)
+                    if e:
+                        bad.append((k, 'C05 smooth_%s of vertex %d (%s, %d interpolation calls: %s): %s' % (
+                            kind, node, 'moved' if moved else 'not moved', len(calls), ''.join(c[0][0] for c in calls), e)))
+                if mode != 0 and (post.mw != pre.mw or post.lw != pre.lw):
+                    bad.append((k, 'C13 smooth_%s of vertex %d changed the stored metric without a continuously '
+                                   'interpolated background' % (kind, node)))
+                if not moved and calls:
+                    # rejected: no trace
+                    sc = max(1.0, max(abs(x) for x in pre.lg))
+                    if max(abs(a - b) for a, b in zip(pre.lg, post.lg)) > 1e-11 * sc:
+                        bad.append((k, 'C13 smooth_%s rejected every try for vertex %d but its stored log metric changed '
+                                       'by %.3e' % (kind, node, max(abs(a - b) for a, b in zip(pre.lg, post.lg)))))
+                    if mode == 0 and clean and pre.cell != -1 and post.cell == -1:
+                        bad.append((k, 'C13 smooth_%s rejected every try for vertex %d and lost its donor cell' % (kind, node)))
+            elif w[0] == 'B':
+                new, hi, ct, status = int(w[1]), int(w[4]), int(w[5]), w[6]
+                pre = St(w[12:33])
+                post = St(w[33:54])
+                if status != 'ok':
+                    bad.append((k, 'ref_metric_interpolate_between returned %s' % status))
+                    continue
+                n0, n1 = int(w[2]), int(w[3])
+                clean = not everything_tampered and n0 not in tampered and n1 not in tampered
+                if mode == 0 and post.cell != -1 and post.part == 0 and inside(post.bary, twod):
+                    e = metric_error(L, post.xyz, post.m, post.lg)
+                    if e:
+                        bad.append((k, 'C05 split insertion of vertex %d between %d and %d: %s' % (new, n0, n1, e)))
+                if mode == 0 and post.cell != -1 and post.part != 0:
+                    bad.append((k, 'C05 split insertion of vertex %d: located in cell %d but its donor part is %d on a '
+                                   'serial run (never re-interpolated when moved)' % (new, post.cell, post.part)))
+                if mode == 0 and clean and w0[0] == 'pass' and post.cell == -1:
+                    bad.append((k, 'C05 split insertion of vertex %d between %d and %d was not located in the background' %
+                                (new, n0, n1)))
+            elif w[0] == 'C':
+                status = w[4]
+                pre = St(w[5:26])
+                post = St(w[26:47])
+                if status == 'ok' and mode == 0 and post.cell != -1 and post.part == 0 and inside(post.bary, twod):
+                    e = metric_error(L, post.xyz, post.m, post.lg)
+                    if e:
+                        bad.append((k, 'C05 ref_metric_interpolate_node of vertex %s: %s' % (w[1], e)))
+                if status == 'not_found' and (post.mw != pre.mw or post.cell != -1):
+                    bad.append((k, 'ref_metric_interpolate_node returned not_found but changed the metric or kept a cell'))
+            elif w[0] == 'N':
+                nn = int(w[1])
+                for q in range(nn):
+                    r = w[2 + 18 * q: 2 + 18 * (q + 1)]
+                    node = int(r[0])
+                    if mode != 0 or everything_tampered or node in tampered:
+                        continue
+                    e = metric_error(L, [unhx(x) for x in r[1:4]], [unhx(x) for x in r[4:10]], [unhx(x) for x in r[10:16]])
+                    if e:
+                        bad.append((k, 'C05 vertex %d (donor cell %s): %s' % (node, r[16], e)))
+                        break
+            elif w[0] == 'done' and w[1] != 'ok':
+                bad.append((k, 'pass %s returned %s' % (w0[1] if len(w0) > 1 else '', w[1])))
+            elif w[0] == 'A':
+                bad.append((k, 'improver returned %s' % w[1]))
+            elif w[0] == 'X':
+                bad.append((k, 'recorder overflow: %s' % line[:80]))
+    return bad[:20]
+
+
+# ------------------------------------------------------------------ generators
+def gen_run(rng, tier):
+    ops = []
+    reps = 1 if tier == 'quick' else 3
+    for _ in range(reps):
+        # 1. the boundary-layer strip: trial positions leave the background (REF_NOT_FOUND in the smoother)
+        for shift in (0.0, rng.uniform(-0.6, 0.3)):
+            n = rng.randint(8, 13)
+            v, t, e = strip(n, 0.06, 0.1, rng.choice([0.002, 0.003, 0.004]))
+            ops += [grid_line(0, True, v, strip_field(shift), t, e), 'pass m', 'dump', 'pass my', 'dump',
+                    'pass ayp', 'pass ay', 'dump']
+        # 2. non-convex domains: the walk hits the boundary, sequential fall-back
+        for shape in rng.sample(['L', 'slit', 'U', 'comb'], 2):
+            nx = rng.randint(6, 9)
+            v, t, e = mask_tris(nx, nx, shape_keep(shape, nx, nx), rng=rng, jitter=rng.choice([0.0, 0.3]))
+            coarse = rng.random() < 0.5
+            h = rng.uniform(0.25, 0.4) if coarse else rng.uniform(0.05, 0.09)
+            ops += [grid_line(0, True, v, field2d(rng, h, h * rng.uniform(0.6, 1.6)), t, e), 'pass aypay', 'dump',
+                    'pass m', 'pass aym', 'dump']
+        # 3. ordinary squares, anisotropic
+        nx = rng.randint(4, 8)
+        v, t, e = mask_tris(nx, nx, shape_keep('square', nx, nx), rng=rng, jitter=0.3)
+        ops += [grid_line(0, True, v, field2d(rng, rng.uniform(0.04, 0.2), rng.uniform(0.1, 0.3)), t, e), 'pass aypay', 'dump',
+                'pass mscwm', 'dump']
+        # 4. tet box
+        n3 = rng.choice([2, 3])
+        v3, t3, s3 = meshgen.box_tets(n3, n3, n3, rng, 0.2)
+        ops += [grid_line(0, False, v3, field3d(rng, [rng.uniform(0.2, 0.4) for _ in range(3)]), tris=s3, tets=t3),
+                'pass ay', 'dump', 'pass m', 'dump']
+        # 5. a long thin strip coarsened along its length: edges longer than the 215-step walk limit of background
+        #    cells, then split again (sequential fall-back of ref_interp_locate_between)
+        n = rng.randint(230, 300)
+        v, t, e = strip(n, 0.01, 0.05, 0.02)
+        Lc = [-2 * math.log(rng.uniform(1.2, 2.0)), 0.0, 0.0, -2 * math.log(0.06), 0.0, 0.0,
+              rng.uniform(0.8, 1.4), 0.0, 0.0, 0.1, 0.0, 0.0, 0.0, 0.0, 0.0, 0.3, 0.0, 0.0] + [0.0] * 6
+        ops += [grid_line(0, True, v, Lc, t, e), 'pass cycyp', 'pass ayp', 'pass ay', 'dump', 'pass m', 'dump']
+        # 6. no background / background not continuously interpolated: the metric is never touched
+        nx = rng.randint(4, 6)
+        v, t, e = mask_tris(nx, nx, shape_keep('square', nx, nx), rng=rng, jitter=0.3)
+        for mode in (1, 2):
+            ops += [grid_line(mode, True, v, field2d(rng, 0.15, 0.2), t, e), 'pass m', 'pass a', 'dump']
+    ops += ['pass', 'bogus 1 2']
+    return ops
+
+
+def _interior_boundary(tris, edgs):
+    onb = set(n for e in edgs for n in e[:2])
+    allv = set(n for t in tris for n in t[:3])
+    return sorted(allv - onb), sorted(onb)
+
+
+def gen_fn(rng, tier):
+    """direct calls: ref_metric_interpolate_node at moved positions (inside, on the boundary, just outside, far
+    outside), with tampered donor records (cell = REF_EMPTY, donor part 1 on a serial run); split insertion with the
+    new vertex anywhere (walks across a re-entrant corner or along > 215 cells give up: sequential fall-back); the
+    three improvers on chosen vertices, clean and tampered"""
+    ops = []
+    reps = 1 if tier == 'quick' else 3
+    for _ in range(reps):
+        for shape in ('L', rng.choice(['slit', 'U', 'comb', 'square'])):
+            nx = rng.randint(6, 10)
+            v, t, e = mask_tris(nx, nx, shape_keep(shape, nx, nx), rng=rng, jitter=rng.choice([0.0, 0.3]))
+            inter, bnd = _interior_boundary(t, e)
+            h = rng.uniform(0.08, 0.2)
+            ops.append(grid_line(0, True, v, field2d(rng, h, h * rng.uniform(0.5, 2.0)), t, e))
+            for _k in range(14 if tier == 'quick' else 30):
+                n = rng.choice(inter)
+                x0 = v[n]
+                u = rng.random()
+                if u < 0.35:   # somewhere in the bounding square: inside the domain or in the cut-out
+                    p = (rng.uniform(0, 1), rng.uniform(0, 1), 0.0)
+                elif u < 0.55:  # just outside / on the outer boundary
+                    p = (rng.choice([-1e-13, 0.0, 1.0, 1.0 + 1e-13, -0.02, 1.02]), rng.uniform(0, 1), 0.0)
+                elif u < 0.7:  # far outside
+                    p = (rng.uniform(1.5, 4.0), rng.uniform(-3.0, -0.5), 0.0)
+                else:          # nearby
+                    p = (x0[0] + rng.uniform(-0.1, 0.1), x0[1] + rng.uniform(-0.1, 0.1), 0.0)
+                ops.append('move %d %s %s %s' % (n, hx(p[0]), hx(p[1]), hx(p[2])))
+                if rng.random() < 0.4:
+                    ops.append('interp %d' % n)
+                ops.append('move %d %s %s %s' % (n, hx(x0[0]), hx(x0[1]), hx(x0[2])))
+            for _k in range(10 if tier == 'quick' else 24):
+                a, b = rng.sample(range(len(v)), 2)
+                u = rng.random()
+                if u < 0.4:
+                    ops.append('between %d %d %s' % (a, b, hx(rng.uniform(0.05, 0.95))))
+                elif u < 0.8:
+                    ops.append('between %d %d %s %s %s %s' % (a, b, hx(0.5), hx(rng.uniform(0, 1)), hx(rng.uniform(0, 1)), hx(0.0)))
+                else:
+                    ops.append('between %d %d %s %s %s %s' % (a, b, hx(0.5), hx(rng.uniform(2, 3)), hx(rng.uniform(2, 3)), hx(0.0)))
+            # tampered donor records
+            for _k in range(8 if tier == 'quick' else 16):
+                n = rng.choice(inter + bnd)
+                u = rng.random()
+                if u < 0.35:
+                    ops.append('setcell %d -1' % n)
+                elif u < 0.7:
+                    ops.append('setpart %d %d' % (n, rng.choice([1, 1, -1, 3])))
+                else:
+                    ops.append('setcell %d %d' % (n, rng.randrange(0, len(t))))
+                ops.append(rng.choice(['interp %d' % n, 'improve tri %d' % n, 'improve edge %d' % n]))
+                if rng.random() < 0.5:
+                    m = rng.choice(inter + bnd)
+                    ops.append('between %d %d %s' % (n, m, hx(0.5)) if n != m else 'interp %d' % n)
+            for n in rng.sample(inter, min(len(inter), 10)):
+                ops.append('improve tri %d' % n)
+            for n in rng.sample(bnd, min(len(bnd), 8)):
+                ops.append('improve edge %d' % n)
+            ops.append('dump')
+        # the boundary-layer strip: improvers whose trial positions leave the background; tampered in between
+        n = rng.randint(8, 12)
+        v, t, e = strip(n, 0.06, 0.1, 0.002)
+        ops.append(grid_line(0, True, v, strip_field(rng.uniform(-0.3, 0.2)), t, e))
+        for i in range(n):
+            node = 2 * (n + 1) + i
+            u = rng.random()
+            if u < 0.2:
+                ops.append('setcell %d -1' % node)
+            elif u < 0.35:
+                ops.append('setpart %d 1' % node)
+            ops.append('improve tri %d' % node)
+        for i in rng.sample(range(1, n), 4):
+            ops.append('improve edge %d' % i)
+        ops.append('dump')
+        # a strip longer than the walk limit: both walks of locate_between terminate, sequential fall-back
+        n = rng.randint(240, 300)
+        v, t, e = strip(n, 0.01, 0.05, 0.02)
+        ops.append(grid_line(0, True, v, field2d(rng, 0.05, 0.05, grad=0.3), t, e))
+        for _k in range(8 if tier == 'quick' else 20):
+            a, b = rng.randint(0, 5), rng.randint(n + 1, n + 6)
+            x = rng.choice([rng.uniform(0.0, 0.3), rng.uniform(2.3, 0.01 * n)])
+            ops.append('between %d %d %s %s %s %s' % (a, b, hx(0.5), hx(x), hx(rng.uniform(0.001, 0.049)), hx(0.0)))
+            node = 2 * (n + 1) + rng.randint(0, 10)
+            ops.append('move %d %s %s %s' % (node, hx(x), hx(rng.uniform(0.001, 0.049)), hx(0.0)))
+            ops.append('move %d %s %s %s' % (node, hx(v[node][0]), hx(v[node][1]), hx(0.0)))
+        # tets
+        n3 = rng.choice([2, 3])
+        v3, t3, s3 = meshgen.box_tets(n3, n3, n3, rng, 0.2)
+        onb = set(x for tr in s3 for x in tr[:3])
+        inter3 = [i for i in range(len(v3)) if i not in onb]
+        ops.append(grid_line(0, False, v3, field3d(rng, [rng.uniform(0.2, 0.5) for _ in range(3)]), tris=s3, tets=t3))
+        for _k in range(10 if tier == 'quick' else 24):
+            node = rng.choice(inter3) if inter3 else 0
+            u = rng.random()
+            if u < 0.2:
+                ops.append('setcell %d -1' % node)
+            elif u < 0.35:
+                ops.append('setpart %d 1' % node)
+            elif u < 0.6:
+                p = [rng.uniform(-0.2, 1.2) for _ in range(3)]
+                ops.append('move %d %s %s %s' % (node, hx(p[0]), hx(p[1]), hx(p[2])))
+                ops.append('move %d %s %s %s' % (node, hx(v3[node][0]), hx(v3[node][1]), hx(v3[node][2])))
+            ops.append('improve tet %d' % node)
+            a, b = rng.sample(range(len(v3)), 2)
+            ops.append('between %d %d %s' % (a, b, hx(rng.uniform(0.1, 0.9))))
+        for node in sorted(onb)[:6]:
+            ops.append('improve tri %d' % node)
+        ops.append('dump')
+        # modes without a usable background
+        nx = 5
+        v, t, e = mask_tris(nx, nx, shape_keep('square', nx, nx), rng=rng, jitter=0.3)
+        inter, bnd = _interior_boundary(t, e)
+        for mode in (1, 2):
+            ops.append(grid_line(mode, True, v, field2d(rng, 0.15, 0.2), t, e))
+            for node in rng.sample(inter, 5):
+                ops += ['improve tri %d' % node, 'interp %d' % node]
+            ops += ['improve edge %d' % rng.choice(bnd), 'between %d %d %s' % (inter[0], inter[1], hx(0.5))]
+    ops += ['improve tri 99999', 'move 0 0 0', 'between 1 1 %s' % hx(0.5), 'setcell 0 99999', 'interp', 'bogus']
+    return ops
+
+
+def nontrivial(op, out):
+    return out[:2] in ('I ', 'B ', 'C ')
+
+
+FN = Stream('smooth_interp_fn', 'h_smoothinterp', 'smoothinterp', gen_fn, oracle=oracle, kind='validate',
+            whitebox=['ref_smooth', 'ref_split', 'ref_interp'], session='grid', nontrivial=nontrivial, timeout=900)
+RUN = Stream('smooth_interp_run', 'h_smoothinterp', 'smoothinterp', gen_run, oracle=oracle, kind='validate',
+             whitebox=['ref_smooth', 'ref_split', 'ref_interp'], session='grid', nontrivial=nontrivial, timeout=900)
